@@ -23,6 +23,9 @@ def main():
     jobs = [(text_split.NAME, str(i))
             for i in range(len(text_split.NEWLINES))]
     chk.verify_parallel(build, jobs, timeout_s=40)
+    chk.add_lean_obligation(
+        'lemma.seq', 'lemmas/SeqFacts.lean', ['B4', 'B5'],
+        'sequence facts used as axioms by the split_lines VCs')
     chk.trusted += [
         'A-bytes B1-B3, B6: facts about bytes.split assumed by the model '
         '(len = count+1; no piece contains the separator; join(split) = id; '
@@ -30,7 +33,11 @@ def main():
         'differential-tested in setup_cmd, not proved',
         'B4/B5: ConcatAll(map(+nl, S)) == Join(nl, S) + nl and the snoc '
         'unfolding of ConcatAll - facts about concatenation instantiated at '
-        'the path terms, differential-tested, not proved by induction',
+        'the path terms; PROVED by induction in Lean 4 on every run '
+        '(lemmas/SeqFacts.lean, obligations lemma.seq.B4 / lemma.seq.B5, '
+        'kernel-checked, standard axioms only); what stays trusted is that '
+        'the Lean definitions concatAll / join say what b\'\'.join and '
+        'nl.join do (three-line recursive definitions, differential-tested)',
         'newline ranges over the 10 byte strings C16 names (each is a '
         'separate instance of the proof)']
     failed = chk.failed_obligations()
